@@ -68,7 +68,7 @@ func parent() {
 	if bin == "" {
 		bin, _ = os.Executable()
 	}
-	n := r.Pick(2000, 30000)
+	n := r.Pick(2700, 30000)
 	cases := buildCases(r.Seed, n, r.Pick(1, 4))
 	runDir := filepath.Join(r.WorkDir(), fmt.Sprintf("run-%s-s%d-%s", r.Tier, r.Seed, filepath.Base(bin)))
 	os.RemoveAll(runDir)
@@ -153,6 +153,9 @@ func parent() {
 			r.Distinct("(state,endpoint)", st+"/"+d.EP)
 			r.Distinct("(state,endpoint,class)", st+"/"+d.EP+"/"+d.Class)
 			r.Distinct("class", d.Class)
+			if d.Class == "extra-item" && (st == "step0" || st == "verify-step0") {
+				r.Distinct("extra item at a start message", d.EP+"|"+res.Variant)
+			}
 			if d.Class == "c12-values" && d.Arg < 1000 {
 				r.Distinct("hostile (value, target) pair", res.Variant)
 			}
@@ -180,6 +183,7 @@ func parent() {
 			r.Floor("messages_in_state_"+stateNames[s], int(r.Counter("state:"+stateNames[s])), n/40)
 		}
 		r.Floor("distinct_(state,endpoint,class)", r.DistinctN("(state,endpoint,class)"), 250)
+		r.Floor("extra items (tag, length) at the start messages", r.DistinctN("extra item at a start message"), 2*len(extraTags)*len(extraLens)*95/100)
 		r.Floor("hostile (value, target) pairs", r.DistinctN("hostile (value, target) pair"), len(c12Values)*10*95/100)
 	}
 	if r.ViolationCount() == 0 {
